@@ -27,7 +27,8 @@ EXPLANATION = (
     "the consumer; every level path handed to _assign_confidence is "
     "unlinked on every normal path of its loop body; the level files "
     "created are a subset of those handed over. (d) the user's input is "
-    "only replaced by a file this run opened in truncating mode. NOT "
+    "only replaced by a file this run opened in truncating mode. Also: every write() of the writer hierarchy starts from an empty file (shared with C13). "
+    "NOT "
     "decided: the outcome of a crash at a particular system call.")
 TECHNIQUE = ("effect scan + call-graph reachability + CFG must-pass-through "
              "/ finally pairing + writer typestate + def-use term equality")
